@@ -91,6 +91,8 @@ pub struct MapDrv<K: Elem, V: Elem> {
     pub steps: u64,
     allocs_seen: u64,
     pub dead: bool,
+    /// skip the O(n log n) contents comparison in validate() (large tables; the caller checks the touched entries itself)
+    pub skip_contents: bool,
 }
 
 fn pred_id(salt: u64, id: u32) -> bool {
@@ -121,6 +123,7 @@ impl<K: Elem, V: Elem> MapDrv<K, V> {
             steps: 0,
             allocs_seen: ckalloc::counters().allocs,
             dead: false,
+            skip_contents: false,
         }
     }
 
@@ -1608,12 +1611,12 @@ impl<K: Elem, V: Elem> MapDrv<K, V> {
             k.check();
             v.check();
             n += 1;
-            if self.compare {
+            if self.compare && !self.skip_contents {
                 contents.push(ME { id: k.id(), kgen: k.gen(), v: v.id(), vgen: v.gen() });
             }
         }
         crate::check!(n == len, "{}: iter() yields {} elements but len() is {}", opname, n, len);
-        if self.compare {
+        if self.compare && !self.skip_contents {
             contents.sort();
             let mut want = self.model.e.clone();
             want.sort();
